@@ -8,14 +8,15 @@ CONSTANTS MaxOff,      \* committed offsets per behaviour
           MaxClock,    \* clock ticks per behaviour
           MaxRecon,    \* reconnects per behaviour (subscribes = MaxRecon + 1)
           MaxTrim,     \* trimming rounds per behaviour
-          MaxRestart,  \* leader restarts per behaviour
-          Export       \* "none" | "steps" | "runs"
+          MaxRestart,  \* leader restarts + elections per behaviour
+          MaxLag,      \* an elected node's DB is at most that many entries behind its log
+          Export       \* "none" | "steps" | "electsteps" (only behaviours with an election) | "runs"
 
 VARIABLES ns, nsub, ntrim, nrst, hist
 mvars == <<ns, nsub, ntrim, nrst, hist>>
 View  == <<ns, nsub, ntrim, nrst>>
 
-Obs(s) == [n |-> s.n, kept |-> SortAsc(s.kept), open |-> s.open, cur |-> s.cur, buf |-> s.buf, seen |-> s.seen, now |-> s.now]
+Obs(s) == [n |-> s.n, tc |-> s.tc, kept |-> SortAsc(s.kept), open |-> s.open, cur |-> s.cur, buf |-> s.buf, seen |-> s.seen, now |-> s.now]
 Rec(name, arg, dummy, s) == [a |-> name, arg |-> arg, dummy |-> dummy] @@ Obs(s)
 Step(name, arg, dummy, s) ==
     /\ ns' = s
@@ -35,19 +36,25 @@ Subscribe ==
 Send   == CanSend(ns) /\ UNCHANGED <<nsub, ntrim, nrst>> /\ Step("Send", ns.buf[1], NoStart, DoSend(ns))
 Disconnect == ns.open /\ nsub <= MaxRecon /\ UNCHANGED <<nsub, ntrim, nrst>> /\ Step("Disconnect", 0, NoStart, DoDisconnect(ns))
 \* the leader controller is closed and re-created on the same log and DB: an open stream ends
-Restart == nrst < MaxRestart /\ nrst' = nrst + 1 /\ UNCHANGED <<nsub, ntrim>> /\ Step("Restart", 0, NoStart, DoDisconnect(ns))
+Restart == nrst < MaxRestart /\ nrst' = nrst + 1 /\ UNCHANGED <<nsub, ntrim>> /\ Step("Restart", 0, NoStart, DoRestart(ns))
+\* another node is elected (or the leader restarts) with a DB that is `lag` entries behind its log: the tail is
+\* applied - and its batches stored - by BecomeLeader
+Elect == /\ nrst < MaxRestart /\ nrst' = nrst + 1 /\ UNCHANGED <<nsub, ntrim>>
+         /\ \E lag \in 1..(IF ns.n < MaxLag THEN ns.n ELSE MaxLag) : Step("Elect", lag, NoStart, DoElect(ns, lag))
 
-MNext == Commit \/ Clock \/ Trim \/ Subscribe \/ Send \/ Disconnect \/ Restart
+MNext == Commit \/ Clock \/ Trim \/ Subscribe \/ Send \/ Disconnect \/ Restart \/ Elect
 MSpec == MInit /\ [][MNext]_mvars
 
 Inv == StreamProps(ns)
+InvNoLoss == NoLoss(ns)
 \* with timestamps that never decrease, a trimming round removes exactly the expired batches
 TrimRule == [][ (hist' # hist /\ hist'[Len(hist')].a = "Trim") => TrimExact(ns, ns') ]_mvars
 \* resuming continues with the next batch: right after a (re)subscription with offset k nothing at or below k is read
 ResumeRule == [][ (hist' # hist /\ hist'[Len(hist')].a = "Subscribe" /\ hist'[Len(hist')].arg # NoStart)
                      => \A i \in 1..Len(ns'.buf) : ns'.buf[i] > hist'[Len(hist')].arg ]_mvars
 
-ExportSteps == (Export = "steps") => PrintT(<<"STEP", ToJson(hist')>>)
+ExportSteps == /\ (Export = "steps") => PrintT(<<"STEP", ToJson(hist')>>)
+               /\ (Export = "electsteps" /\ \E i \in 1..Len(hist') : hist'[i].a = "Elect") => PrintT(<<"STEP", ToJson(hist')>>)
 ExportRuns(d) == (Export = "runs" /\ TLCGet("level") >= d) => PrintT(<<"RUN", ToJson(hist)>>)
 ExportRuns20 == ExportRuns(20)
 =============================================================================
